@@ -198,6 +198,27 @@ Definition run_large (shape : N) (n : nat) : list N :=
     end
   end.
 
+(* printhist <tree>|<tree>|...  and  parsehist <src>|<src>|... : several prints (parses) in one process, all
+   results re-read after the last call.  In the model every call is independent.  An element "!" of a print
+   history is a print of an unexpected node type (an error, no text). *)
+Definition bar : N := 124.
+Definition hist_print (e : list N) : option (list N) :=
+  if str_eqb e [33] then Some $"!err"
+  else match dec_script e with
+       | Some c => let b := print_script c in Some (print_bytes b ++ [58] ++ show_parse (parse b))
+       | None => None
+       end.
+Definition hist_parse (e : list N) : option (list N) :=
+  match parse_bytes e with
+  | Some s => Some (show_parse (parse s))
+  | None => None
+  end.
+Definition run_hist (f : list N -> option (list N)) (a : list N) : list N :=
+  match map_opt f (split bar a) with
+  | Some outs => r_ok (join [bar] outs)
+  | None => r_badcase
+  end.
+
 Definition run_acc (line : list N) : list N :=
   match split sp line with
   | [f; a] =>
@@ -208,6 +229,8 @@ Definition run_acc (line : list N) : list N :=
       else if str_eqb f $"loadtree" then match dec_script a with
                                          | Some c => if script_huge c then r_ok $"toolarge" else print_outcome (fun x => x) (show_load (load_tree c))
                                          | None => r_badcase end
+      else if str_eqb f $"printhist" then run_hist hist_print a
+      else if str_eqb f $"parsehist" then run_hist hist_parse a
       else if str_eqb f $"deepparse" then match parse_decN a with Some n => run_deep n | None => r_badcase end
       else if str_eqb f $"expr" then match dec_expr a with Some e => r_ok (print_bytes (pr_expr e)) | None => r_badcase end
       else r_badcase
